@@ -13,7 +13,10 @@
       ([bytes(Layer(b))], [struct.error], or another exception). No hypothesis is made on
       it: "well-formed PDU" is DEFINED as [codec k b = COk b _] (scapy rebuilds exactly the
       bytes it dissected);
-    - Python exceptions are values: [Ok v | NoneR | Raise cls].
+    - Python exceptions are values: [Ok v | NoneR | Raise cls];
+    - every method is [X_body] (the Python body) wrapped by its decorator: [failsafe_to] =
+      dissect_failsafe on to_packet (struct.error, ValueError -> None), [failsafe] =
+      convert_failsafe on from_packet (struct.error, TypeError, AttributeError, ValueError -> None).
     No proofs in this file. *)
 From Coq Require Import List NArith ZArith Bool.
 From Whad Require Import Lib.Bytes.
@@ -29,6 +32,16 @@ Arguments Ok {A} a. Arguments NoneR {A}. Arguments Raise {A} e.
 Definition bind {A B} (x : out A) (f : A -> out B) : out B :=
   match x with Ok a => f a | NoneR => NoneR | Raise e => Raise e end.
 Notation "'do' x <- a ; b" := (bind a (fun x => b)) (at level 200, x name, a at level 100, b at level 200).
+
+(** [dissect_failsafe] (to_packet: struct.error and ValueError become None) and [convert_failsafe]
+    (from_packet: struct.error, TypeError, AttributeError and ValueError become None) of whad/hub/message.py *)
+Definition caught_to (e : exn) : bool := match e with StructError | ValueError => true | _ => false end.
+Definition caught_from (e : exn) : bool :=
+  match e with StructError | TypeError | AttributeError | ValueError => true | _ => false end.
+Definition failsafe_to {A} (x : out A) : out A :=
+  match x with Raise e => if caught_to e then NoneR else Raise e | _ => x end.
+Definition failsafe {A} (x : out A) : out A :=
+  match x with Raise e => if caught_from e then NoneR else Raise e | _ => x end.
 
 (** ** Layers and the scapy codec *)
 Inductive layer :=
@@ -207,13 +220,14 @@ Definition md_ble_send (dir conn : Z) (enc raw : bool) : metadata :=
      md_modulation := None; md_syncword := None |}.
 
 (** SendBleRawPdu.to_packet: BTLE(access_addr, crc)/pdu — the payload stays Raw *)
-Definition ble_send_raw_to (m : ble_send_raw) : out packet :=
+Definition ble_send_raw_to_body (m : ble_send_raw) : out packet :=
   Ok {| p_top := LBtle; p_sub := LRaw;
         p_bytes := le32z (bsr_aa m) ++ bsr_pdu m ++ be24z (bsr_crc m);
         p_md := Some (md_ble_send (bsr_direction m) (bsr_conn m) (bsr_encrypt m) true) |}.
+Definition ble_send_raw_to (m : ble_send_raw) : out packet := failsafe_to (ble_send_raw_to_body m).
 
 (** SendBleRawPdu.from_packet(packet, encrypt) *)
-Definition ble_send_raw_from (encrypt : option bool) (p : packet) : out ble_send_raw :=
+Definition ble_send_raw_from_body (encrypt : option bool) (p : packet) : out ble_send_raw :=
   do md <- get_md p;
   if negb (has_btle p) then NoneR else
   do pdu <- ble_extract p;
@@ -224,27 +238,33 @@ Definition ble_send_raw_from (encrypt : option bool) (p : packet) : out ble_send
   do crc <- set_u32 (Some (snd ac));
   do e <- set_bool encrypt;
   Ok {| bsr_direction := d; bsr_conn := c; bsr_aa := aa; bsr_pdu := pdu; bsr_crc := crc; bsr_encrypt := e |}.
+Definition ble_send_raw_from (encrypt : option bool) (p : packet) : out ble_send_raw := failsafe (ble_send_raw_from_body encrypt p).
 
 (** SendBlePdu.to_packet: BTLE_DATA(pdu) *)
-Definition ble_send_to (m : ble_send) : out packet :=
+Definition ble_send_to_body (m : ble_send) : out packet :=
   do r <- dissect LBtleData (bs_pdu m);
   Ok {| p_top := LBtleData; p_sub := LRaw; p_bytes := fst r;
         p_md := Some (md_ble_send (bs_direction m) (bs_conn m) (bs_encrypt m) false) |}.
+Definition ble_send_to (m : ble_send) : out packet := failsafe_to (ble_send_to_body m).
 
-Definition ble_send_from (encrypt : option bool) (p : packet) : out ble_send :=
+Definition ble_send_from_body (encrypt : option bool) (p : packet) : out ble_send :=
   do md <- get_md p;
   do pdu <- ble_extract p;
   do d <- set_i32 (md_direction md);
   do c <- set_u32 (md_conn md);
   do e <- set_bool encrypt;
   Ok {| bs_direction := d; bs_conn := c; bs_pdu := pdu; bs_encrypt := e |}.
+Definition ble_send_from (encrypt : option bool) (p : packet) : out ble_send := failsafe (ble_send_from_body encrypt p).
 
 (** BleDomain.convert_packet *)
 Inductive ble_sendmsg := BSendRaw (m : ble_send_raw) | BSend (m : ble_send).
 Definition truthy (b : option bool) : bool := match b with Some true => true | _ => false end.
 
+(** [isinstance(getattr(packet, "metadata", None), XMetadata)]: no metadata -> not this domain *)
+Definition md_or_none (p : packet) : out metadata := match p_md p with Some m => Ok m | None => NoneR end.
+
 Definition ble_convert (p : packet) : out ble_sendmsg :=
-  do md <- get_md p;
+  do md <- md_or_none p;
   if mdcls_eqb (md_cls md) MdBle then
     if truthy (md_raw md)
     then do m <- ble_send_raw_from (md_encrypt md) p; Ok (BSendRaw m)
@@ -269,7 +289,7 @@ Definition md_ble_adv (rssi : Z) : metadata :=
      md_modulation := None; md_syncword := None |}.
 
 (** BleAdvPduReceived.to_packet: BTLE_ADV()/CLASS(bd_address + adv_data), TxAdd from addr_type *)
-Definition ble_adv_to (m : ble_adv) : out packet :=
+Definition ble_adv_to_body (m : ble_adv) : out packet :=
   match adv_layer_of_type (ba_type m) with
   | None => NoneR
   | Some (cls, pt) =>
@@ -281,9 +301,10 @@ Definition ble_adv_to (m : ble_adv) : out packet :=
             p_bytes := bz hdr0 :: bz (Z.of_nat (length pay)) :: pay;
             p_md := Some (md_ble_adv (ba_rssi m)) |}
   end.
+Definition ble_adv_to (m : ble_adv) : out packet := failsafe_to (ble_adv_to_body m).
 
 (** BleAdvPduReceived.from_packet *)
-Definition ble_adv_from (p : packet) : out ble_adv :=
+Definition ble_adv_from_body (p : packet) : out ble_adv :=
   if has_adv p then
     let b := inner p in
     match b with
@@ -304,6 +325,7 @@ Definition ble_adv_from (p : packet) : out ble_adv :=
     | _ => NoneR
     end
   else NoneR.
+Definition ble_adv_from (p : packet) : out ble_adv := failsafe (ble_adv_from_body p).
 
 Definition md_ble_pdu (dir conn : Z) (proc decr : bool) : metadata :=
   {| md_cls := MdBle; md_raw := Some false; md_decrypted := Some decr; md_timestamp := None; md_channel := None;
@@ -313,16 +335,17 @@ Definition md_ble_pdu (dir conn : Z) (proc decr : bool) : metadata :=
      md_modulation := None; md_syncword := None |}.
 
 (** BlePduReceived.to_packet *)
-Definition ble_pdu_to (m : ble_pdu) : out packet :=
+Definition ble_pdu_to_body (m : ble_pdu) : out packet :=
   do r <- dissect LBtleData (bp_pdu m);
   Ok {| p_top := LBtleData; p_sub := LRaw; p_bytes := fst r;
         p_md := Some (md_ble_pdu (bp_direction m) (bp_conn m) (bp_processed m) (bp_decrypted m)) |}.
+Definition ble_pdu_to (m : ble_pdu) : out packet := failsafe_to (ble_pdu_to_body m).
 
 Definition get_processed (md : metadata) : out (option bool) :=
   match md_processed md with None => Raise AttributeError | Some v => Ok v end.
 
 (** BlePduReceived.from_packet *)
-Definition ble_pdu_from (p : packet) : out ble_pdu :=
+Definition ble_pdu_from_body (p : packet) : out ble_pdu :=
   if negb (has_data p) then NoneR else
   do md <- get_md p;
   do pr <- get_processed md;
@@ -331,9 +354,10 @@ Definition ble_pdu_from (p : packet) : out ble_pdu :=
   do pr' <- set_bool pr;
   do de <- set_bool (md_decrypted md);
   Ok {| bp_direction := d; bp_pdu := inner p; bp_conn := c; bp_processed := pr'; bp_decrypted := de |}.
+Definition ble_pdu_from (p : packet) : out ble_pdu := failsafe (ble_pdu_from_body p).
 
 (** BleRawPduReceived.to_packet: BTLE(pack("I", aa) + pdu + pack(">I", crc)[1:]) *)
-Definition ble_raw_to (m : ble_raw) : out packet :=
+Definition ble_raw_to_body (m : ble_raw) : out packet :=
   if negb (in_u32 (br_aa m) && in_u32 (br_crc m)) then NoneR else
   do r <- dissect LBtle (le32z (br_aa m) ++ br_pdu m ++ be24z (br_crc m));
   Ok {| p_top := LBtle; p_sub := snd r; p_bytes := fst r;
@@ -344,9 +368,10 @@ Definition ble_raw_to (m : ble_raw) : out packet :=
              md_rel_ts := br_rel_ts m; md_encrypt := Some false; md_processed := Some (Some (br_processed m));
              md_lqi := None; md_address := None; md_retr := None; md_frequency := None; md_endianness := None;
              md_deviation := None; md_datarate := None; md_modulation := None; md_syncword := None |} |}.
+Definition ble_raw_to (m : ble_raw) : out packet := failsafe_to (ble_raw_to_body m).
 
 (** BleRawPduReceived.from_packet *)
-Definition ble_raw_from (p : packet) : out ble_raw :=
+Definition ble_raw_from_body (p : packet) : out ble_raw :=
   if has_btle p then
     do pdu <- ble_extract p;
     do ac <- btle_aa_crc p;
@@ -366,6 +391,7 @@ Definition ble_raw_from (p : packet) : out ble_raw :=
           br_valid := md_valid md; br_aa := aa; br_pdu := pdu; br_crc := crc; br_conn := c;
           br_processed := pr'; br_decrypted := de |}
   else NoneR.
+Definition ble_raw_from (p : packet) : out ble_raw := failsafe (ble_raw_from_body p).
 
 (** ** 802.15.4 *)
 Record d15_send := { ds_channel : Z; ds_pdu : bytes }.
@@ -385,29 +411,32 @@ Definition md_d15 (raw decr : option bool) (ch : Z) (rssi ts : option Z) (valid 
 (** [Dot15d4 in packet]: scapy's Dot15d4 has match_subclass = True, Dot15d4FCS matches too *)
 Definition has_d15 (p : packet) : bool := layer_eqb (p_top p) LDot15d4 || layer_eqb (p_top p) LDot15d4FCS.
 
-Definition d15_send_to (m : d15_send) : out packet :=
+Definition d15_send_to_body (m : d15_send) : out packet :=
   do r <- dissect LDot15d4 (ds_pdu m);
   Ok {| p_top := LDot15d4; p_sub := LRaw; p_bytes := fst r;
         p_md := Some (md_d15 (Some false) None (ds_channel m) None None None None) |}.
+Definition d15_send_to (m : d15_send) : out packet := failsafe_to (d15_send_to_body m).
 
-Definition d15_send_from (channel : option Z) (p : packet) : out d15_send :=
+Definition d15_send_from_body (channel : option Z) (p : packet) : out d15_send :=
   if has_d15 p || layer_eqb (p_top p) LDot15d4Raw then
     do ch <- set_u32 channel;
     Ok {| ds_channel := ch; ds_pdu := p_bytes p |}
   else NoneR.
+Definition d15_send_from (channel : option Z) (p : packet) : out d15_send := failsafe (d15_send_from_body channel p).
 
 Definition in_u16 (z : Z) : bool := (0 <=? z) && (z <? 65536).
 
-Definition d15_send_raw_to (m : d15_send_raw) : out packet :=
+Definition d15_send_raw_to_body (m : d15_send_raw) : out packet :=
   if negb (in_u16 (dsr_fcs m)) then NoneR else
   do r <- dissect LDot15d4FCS (dsr_pdu m ++ le16z (dsr_fcs m));
   Ok {| p_top := LDot15d4FCS; p_sub := LRaw; p_bytes := fst r;
         p_md := Some (md_d15 (Some true) None (dsr_channel m) None None None None) |}.
+Definition d15_send_raw_to (m : d15_send_raw) : out packet := failsafe_to (d15_send_raw_to_body m).
 
 (** pdu / fcs split of a frame: [frame[:-2]], [unpack("<H", frame[-2:])] *)
 Definition split_fcs (frame : bytes) : bytes * Z := (butlastn 2 frame, un_le16z (lastn 2 frame)).
 
-Definition d15_send_raw_from (channel : option Z) (p : packet) : out d15_send_raw :=
+Definition d15_send_raw_from_body (channel : option Z) (p : packet) : out d15_send_raw :=
   if layer_eqb (p_top p) LDot15d4FCS then
     if (length (p_bytes p) <? 2)%nat then Raise StructError else
     let s := split_fcs (p_bytes p) in
@@ -418,22 +447,24 @@ Definition d15_send_raw_from (channel : option Z) (p : packet) : out d15_send_ra
     do ch <- set_u32 channel;
     Ok {| dsr_channel := ch; dsr_pdu := fst s; dsr_fcs := snd s |}
   else NoneR.
+Definition d15_send_raw_from (channel : option Z) (p : packet) : out d15_send_raw := failsafe (d15_send_raw_from_body channel p).
 
 Inductive d15_sendmsg := DSendRaw (m : d15_send_raw) | DSend (m : d15_send).
 Definition d15_convert (p : packet) : out d15_sendmsg :=
-  do md <- get_md p;
+  do md <- md_or_none p;
   if mdcls_eqb (md_cls md) MdD15 then
     if truthy (md_raw md)
     then do m <- d15_send_raw_from (md_channel md) p; Ok (DSendRaw m)
     else do m <- d15_send_from (md_channel md) p; Ok (DSend m)
   else NoneR.
 
-Definition d15_pdu_to (m : d15_pdu) : out packet :=
+Definition d15_pdu_to_body (m : d15_pdu) : out packet :=
   do r <- dissect LDot15d4 (dp_pdu m);
   Ok {| p_top := LDot15d4; p_sub := LRaw; p_bytes := fst r;
         p_md := Some (md_d15 None (Some false) (dp_channel m) (dp_rssi m) (dp_timestamp m) (dp_valid m) (dp_lqi m)) |}.
+Definition d15_pdu_to (m : d15_pdu) : out packet := failsafe_to (d15_pdu_to_body m).
 
-Definition d15_pdu_from (p : packet) : out d15_pdu :=
+Definition d15_pdu_from_body (p : packet) : out d15_pdu :=
   if negb (has_d15 p) then NoneR else
   do md <- get_md p;
   do ch <- set_u32 (md_channel md);
@@ -441,9 +472,10 @@ Definition d15_pdu_from (p : packet) : out d15_pdu :=
   do rs <- opt_i32 (md_rssi md);
   do ts <- opt_u64 (md_timestamp md);
   Ok {| dp_channel := ch; dp_pdu := p_bytes p; dp_rssi := rs; dp_timestamp := ts; dp_valid := md_valid md; dp_lqi := lq |}.
+Definition d15_pdu_from (p : packet) : out d15_pdu := failsafe (d15_pdu_from_body p).
 
 (** RawPduReceived.to_packet: Dot15d4FCS(pdu + fcs), and Dot15d4Raw(...) when scapy raises struct.error *)
-Definition d15_raw_to (m : d15_raw) : out packet :=
+Definition d15_raw_to_body (m : d15_raw) : out packet :=
   if negb (in_u16 (dr_fcs m)) then NoneR else
   let frame := dr_pdu m ++ le16z (dr_fcs m) in
   let md := Some (md_d15 None (Some false) (dr_channel m) (dr_rssi m) (dr_timestamp m) (dr_valid m) (dr_lqi m)) in
@@ -452,8 +484,9 @@ Definition d15_raw_to (m : d15_raw) : out packet :=
   | CStruct => Ok {| p_top := LDot15d4Raw; p_sub := LRaw; p_bytes := frame; p_md := md |}
   | CExc e => Raise e
   end.
+Definition d15_raw_to (m : d15_raw) : out packet := failsafe_to (d15_raw_to_body m).
 
-Definition d15_raw_from (p : packet) : out d15_raw :=
+Definition d15_raw_from_body (p : packet) : out d15_raw :=
   if layer_eqb (p_top p) LDot15d4FCS || layer_eqb (p_top p) LDot15d4Raw then
     if (length (p_bytes p) <? 2)%nat then NoneR else
     let s := split_fcs (p_bytes p) in
@@ -466,6 +499,7 @@ Definition d15_raw_from (p : packet) : out d15_raw :=
     Ok {| dr_channel := ch; dr_pdu := fst s; dr_fcs := fc; dr_rssi := rs; dr_timestamp := ts;
           dr_valid := md_valid md; dr_lqi := lq |}
   else NoneR.
+Definition d15_raw_from (p : packet) : out d15_raw := failsafe (d15_raw_from_body p).
 
 (** ** ESB and Logitech Unifying (same message shapes; [uni] selects the Unifying variants) *)
 Record esb_tx := { et_channel : Z; et_pdu : bytes; et_retr : Z }.
@@ -488,28 +522,31 @@ Definition md_esb (uni : bool) (raw decr : option bool) (ch : Z) (rssi ts : opti
 Definition force_preamble (b : bytes) : bytes := match b with [] => [] | _ :: t => 170%N :: t end.
 
 (** SendPdu.to_packet *)
-Definition esb_send_to (uni : bool) (m : esb_tx) : out packet :=
+Definition esb_send_to_body (uni : bool) (m : esb_tx) : out packet :=
   do r <- dissect (esb_payload uni) (et_pdu m);
   Ok {| p_top := esb_payload uni; p_sub := LRaw; p_bytes := fst r;
         p_md := Some (md_esb uni (Some false) None (et_channel m) None None None None (Some (Some (et_retr m)))) |}.
+Definition esb_send_to (uni : bool) (m : esb_tx) : out packet := failsafe_to (esb_send_to_body uni m).
 
 (** SendRawPdu.to_packet (Unifying forces the preamble to 0xAA) *)
-Definition esb_send_raw_to (uni : bool) (m : esb_tx) : out packet :=
+Definition esb_send_raw_to_body (uni : bool) (m : esb_tx) : out packet :=
   do r <- dissect (esb_hdr uni) (et_pdu m);
   Ok {| p_top := esb_hdr uni; p_sub := LRaw;
         p_bytes := if uni then force_preamble (fst r) else fst r;
         p_md := Some (md_esb uni (Some true) None (et_channel m) None None None None (Some (Some (et_retr m)))) |}.
+Definition esb_send_raw_to (uni : bool) (m : esb_tx) : out packet := failsafe_to (esb_send_raw_to_body uni m).
 
 (** SendPdu.from_packet / SendRawPdu.from_packet (packet, retr_count) *)
-Definition esb_tx_from (retr : option Z) (p : packet) : out esb_tx :=
+Definition esb_tx_from_body (retr : option Z) (p : packet) : out esb_tx :=
   do md <- get_md p;
   do ch <- set_u32 (md_channel md);
   do rc <- set_u32 retr;
   Ok {| et_channel := ch; et_pdu := p_bytes p; et_retr := rc |}.
+Definition esb_tx_from (retr : option Z) (p : packet) : out esb_tx := failsafe (esb_tx_from_body retr p).
 
 Inductive esb_sendmsg := ESendRaw (m : esb_tx) | ESend (m : esb_tx).
 Definition esb_convert (uni : bool) (p : packet) : out esb_sendmsg :=
-  do md <- get_md p;
+  do md <- md_or_none p;
   if mdcls_eqb (md_cls md) (esb_mdcls uni) then
     let retr := match md_retr md with Some (Some r) => Some r | _ => Some 1 end in
     if truthy (md_raw md)
@@ -518,22 +555,24 @@ Definition esb_convert (uni : bool) (p : packet) : out esb_sendmsg :=
   else NoneR.
 
 (** PduReceived.to_packet *)
-Definition esb_pdu_to (uni : bool) (m : esb_rx) : out packet :=
+Definition esb_pdu_to_body (uni : bool) (m : esb_rx) : out packet :=
   do r <- dissect (esb_payload uni) (er_pdu m);
   Ok {| p_top := esb_payload uni; p_sub := LRaw; p_bytes := fst r;
         p_md := Some (md_esb uni (if uni then Some false else None) (if uni then Some false else None)
                              (er_channel m) (er_rssi m) (er_timestamp m) (er_valid m) (er_address m) None) |}.
+Definition esb_pdu_to (uni : bool) (m : esb_rx) : out packet := failsafe_to (esb_pdu_to_body uni m).
 
 (** RawPduReceived.to_packet *)
-Definition esb_raw_to (uni : bool) (m : esb_rx) : out packet :=
+Definition esb_raw_to_body (uni : bool) (m : esb_rx) : out packet :=
   do r <- dissect (esb_hdr uni) (er_pdu m);
   Ok {| p_top := esb_hdr uni; p_sub := LRaw; p_bytes := fst r;
         p_md := Some (md_esb uni (Some true) (Some false) (er_channel m) (er_rssi m) (er_timestamp m)
                              (er_valid m) (er_address m) None) |}.
+Definition esb_raw_to (uni : bool) (m : esb_rx) : out packet := failsafe_to (esb_raw_to_body uni m).
 
 (** PduReceived.from_packet / RawPduReceived.from_packet; [force] = Unifying RawPduReceived, which
     sets [packet.preamble = 0xAA] before taking the bytes *)
-Definition esb_rx_from (force : bool) (p : packet) : out esb_rx :=
+Definition esb_rx_from_body (force : bool) (p : packet) : out esb_rx :=
   let is_hdr := layer_eqb (p_top p) LUniHdr || layer_eqb (p_top p) LEsbHdr in
   let b := if force && is_hdr then force_preamble (p_bytes p) else p_bytes p in
   do md <- get_md p;
@@ -542,6 +581,7 @@ Definition esb_rx_from (force : bool) (p : packet) : out esb_rx :=
   do ts <- opt_u64 (md_timestamp md);
   Ok {| er_channel := ch; er_pdu := b; er_rssi := rs; er_timestamp := ts; er_valid := md_valid md;
         er_address := md_address md |}.
+Definition esb_rx_from (force : bool) (p : packet) : out esb_rx := failsafe (esb_rx_from_body force p).
 
 (** ** PHY *)
 Record phy_send := { ps_packet : bytes }.
@@ -550,16 +590,17 @@ Record phy_rx := { pr_frequency : Z; pr_packet : bytes; pr_rssi : option Z; pr_t
                    pr_iq : list Z; pr_deviation : Z; pr_datarate : Z; pr_endian : Z; pr_modulation : Z;
                    pr_syncword : bytes }.
 
-Definition phy_send_to (m : phy_send) : out packet :=
+Definition phy_send_to_body (m : phy_send) : out packet :=
   Ok {| p_top := LPhy; p_sub := LRaw; p_bytes := ps_packet m; p_md := None |}.
-Definition phy_send_from (p : packet) : out phy_send := Ok {| ps_packet := p_bytes p |}.
+Definition phy_send_to (m : phy_send) : out packet := failsafe_to (phy_send_to_body m).
+Definition phy_send_from (p : packet) : out phy_send := failsafe (Ok {| ps_packet := p_bytes p |}).
 (** SendRawPacket.to_packet reads [self.packet], which does not exist *)
-Definition phy_send_raw_to (m : phy_send_raw) : out packet := Raise AttributeError.
-Definition phy_send_raw_from (p : packet) : out phy_send_raw := Ok {| psr_iq := [] |}.
+Definition phy_send_raw_to (m : phy_send_raw) : out packet := failsafe_to (Raise AttributeError).
+Definition phy_send_raw_from (p : packet) : out phy_send_raw := failsafe (Ok {| psr_iq := [] |}).
 
 Inductive phy_sendmsg := PSendRaw (m : phy_send_raw) | PSend (m : phy_send).
 Definition phy_convert (p : packet) : out phy_sendmsg :=
-  do md <- get_md p;
+  do md <- md_or_none p;
   if mdcls_eqb (md_cls md) MdPhy then
     if truthy (md_raw md)
     then do m <- phy_send_raw_from p; Ok (PSendRaw m)
@@ -574,30 +615,33 @@ Definition md_phy (raw : bool) (freq : Z) (rssi ts : option Z) (en de da mo : op
      md_modulation := mo; md_syncword := sw |}.
 
 (** PacketReceived / RawPacketReceived (version 1): the modulation fields are not translated *)
-Definition phy_rx1_to (raw : bool) (m : phy_rx) : out packet :=
+Definition phy_rx1_to_body (raw : bool) (m : phy_rx) : out packet :=
   Ok {| p_top := LPhy; p_sub := LRaw; p_bytes := pr_packet m;
         p_md := Some (md_phy raw (pr_frequency m) (pr_rssi m) (pr_timestamp m) None None None None None) |}.
+Definition phy_rx1_to (raw : bool) (m : phy_rx) : out packet := failsafe_to (phy_rx1_to_body raw m).
 
-Definition phy_rx1_from (p : packet) : out phy_rx :=
+Definition phy_rx1_from_body (p : packet) : out phy_rx :=
   do md <- get_md p;
   do f <- set_u32 (md_frequency md);
   do rs <- opt_i32 (md_rssi md);
   do ts <- opt_u64 (md_timestamp md);
   Ok {| pr_frequency := f; pr_packet := p_bytes p; pr_rssi := rs; pr_timestamp := ts; pr_iq := [];
         pr_deviation := 0; pr_datarate := 0; pr_endian := 0; pr_modulation := 0; pr_syncword := [] |}.
+Definition phy_rx1_from (p : packet) : out phy_rx := failsafe (phy_rx1_from_body p).
 
 (** Extended (version 2): Endianness(x) / Modulation(x) raise ValueError outside the enum *)
-Definition phy_rx2_to (raw : bool) (m : phy_rx) : out packet :=
+Definition phy_rx2_to_body (raw : bool) (m : phy_rx) : out packet :=
   if negb ((0 <=? pr_endian m) && (pr_endian m <=? 1)) then Raise ValueError else
   if negb ((0 <=? pr_modulation m) && (pr_modulation m <=? 7)) then Raise ValueError else
   Ok {| p_top := LPhy; p_sub := LRaw; p_bytes := pr_packet m;
         p_md := Some (md_phy raw (pr_frequency m) (pr_rssi m) (pr_timestamp m) (Some (pr_endian m))
                              (Some (pr_deviation m)) (Some (pr_datarate m)) (Some (pr_modulation m))
                              (Some (pr_syncword m))) |}.
+Definition phy_rx2_to (raw : bool) (m : phy_rx) : out packet := failsafe_to (phy_rx2_to_body raw m).
 
 Definition dflt (v : option Z) : Z := match v with Some z => z | None => 0 end.
 
-Definition phy_rx2_from (p : packet) : out phy_rx :=
+Definition phy_rx2_from_body (p : packet) : out phy_rx :=
   do md <- get_md p;
   do f <- set_u32 (md_frequency md);
   do rs <- opt_i32 (md_rssi md);
@@ -609,13 +653,14 @@ Definition phy_rx2_from (p : packet) : out phy_rx :=
   Ok {| pr_frequency := f; pr_packet := p_bytes p; pr_rssi := rs; pr_timestamp := ts; pr_iq := [];
         pr_deviation := dflt de; pr_datarate := dflt da; pr_endian := dflt en; pr_modulation := dflt mo;
         pr_syncword := match md_syncword md with Some s => s | None => [] end |}.
+Definition phy_rx2_from (p : packet) : out phy_rx := failsafe (phy_rx2_from_body p).
 
 (** ** ProtocolHub.convert_packet: dispatch on the metadata class *)
 Inductive sendmsg := SBle (m : ble_sendmsg) | SD15 (m : d15_sendmsg) | SEsb (m : esb_sendmsg)
                    | SUni (m : esb_sendmsg) | SPhy (m : phy_sendmsg).
 
 Definition hub_convert (p : packet) : out sendmsg :=
-  do md <- get_md p;
+  do md <- md_or_none p;
   match md_cls md with
   | MdBle => do m <- ble_convert p; Ok (SBle m)
   | MdD15 => do m <- d15_convert p; Ok (SD15 m)
@@ -1091,45 +1136,12 @@ Definition sendable_phy (p : packet) : bool :=
   end.
 End WF.
 
-(** ** When [from_packet] cannot raise: the packet has a metadata object holding every non-optional
-    item of the message kind, all items within their protobuf ranges, and a BTLE / Dot15d4FCS top
-    layer is long enough to hold its header (which scapy guarantees for every packet it builds) *)
-Definition md_ok (c : cls) (kw : kwargs) (p : packet) : bool :=
-  match p_md p with
-  | None => match c with CPhySend | CPhySendRaw => true | _ => false end
-  | Some m =>
-      ro_i32 (md_rssi m) && ro_u64 (md_timestamp m) && ro_u64 (md_rel_ts m) && ro_u32 (md_lqi m)
-      && (if layer_eqb (p_top p) LBtle then (7 <=? length (p_bytes p))%nat else true)
-      && (if layer_eqb (p_top p) LDot15d4FCS then (2 <=? length (p_bytes p))%nat else true)
-      && match c with
-         | CBleSendRaw | CBleSend => so_i32 (md_direction m) && so_u32 (md_conn m) && is_some (kw_encrypt kw)
-         | CBleAdv => so_i32 (md_rssi m)
-         | CBlePdu => so_i32 (md_direction m) && so_u32 (md_conn m) && is_some (md_decrypted m)
-                      && match md_processed m with Some (Some _) => true | _ => false end
-         | CBleRaw => so_i32 (md_direction m) && so_u32 (md_conn m) && so_u32 (md_channel m) && is_some (md_decrypted m)
-                      && match md_processed m with Some (Some _) => true | _ => false end
-         | CD15Send | CD15SendRaw => so_u32 (kw_channel kw)
-         | CD15Pdu | CD15Raw => so_u32 (md_channel m)
-         | CEsbSend | CEsbSendRaw | CUniSend | CUniSendRaw => so_u32 (md_channel m) && so_u32 (kw_retr kw)
-         | CEsbPdu | CEsbRaw | CUniPdu | CUniRaw => so_u32 (md_channel m)
-         | CPhySend | CPhySendRaw => true
-         | CPhyPkt1 | CPhyRaw1 => so_u32 (md_frequency m)
-         | CPhyPkt2 | CPhyRaw2 => so_u32 (md_frequency m) && ro_i32 (md_endianness m) && ro_u32 (md_datarate m)
-                                  && ro_u32 (md_deviation m) && ro_i32 (md_modulation m)
-         end
-  end.
-
+(** ** "never raises" *)
 Definition raises {A} (x : out A) : bool := match x with Raise _ => true | _ => false end.
 
 (** ** Premises of the "to_packet never raises" theorem *)
-Definition codec_no_exc (codec : layer -> bytes -> cres) : Prop := forall k b e, codec k b <> CExc e.
-Definition phy_enum_ok (c : cls) (b : body) : bool :=
-  match c, b with
-  | CPhyPkt2, BPhyRx m | CPhyRaw2, BPhyRx m =>
-      (0 <=? pr_endian m) && (pr_endian m <=? 1) && (0 <=? pr_modulation m) && (pr_modulation m <=? 7)
-  | CPhySendRaw, _ => false
-  | _, _ => true
-  end.
+(** scapy raises nothing but what [dissect_failsafe] turns into None (struct.error, ValueError) *)
+Definition codec_no_exc (codec : layer -> bytes -> cres) : Prop := forall k b e, codec k b = CExc e -> caught_to e = true.
 Definition well_typed (c : cls) (b : body) : bool :=
   match c, b with
   | CBleSendRaw, BBleSendRaw _ | CBleSend, BBleSend _ | CBleAdv, BBleAdv _ | CBlePdu, BBlePdu _ | CBleRaw, BBleRaw _
